@@ -172,17 +172,20 @@ def expectedLoopsFlat (S : EinsumS) (modes : List Mode) : List (String × List S
     | [t] => t.tensors
     | _ => []
   let plain := expectedLoops S
-  let rec go : List (String × List String) → List String → List Mode → Option (Nat × String) → List (String × List String)
+  let emit (o : Nat) (v : String) (allOut : Bool) : String × List String :=
+    (v, (if allOut then [S.outName.toLower ++ "_" ++ v] else []) ++ [((tensors[o]?.map (·.name)).getD "?").toLower ++ "_" ++ v])
+  let rec go : List (String × List String) → List String → List Mode → Option (Nat × String × Bool) → List (String × List String)
     | [], _, _, acc => match acc with
-      | some (o, v) => [(v, [((tensors[o]?.map (·.name)).getD "?").toLower ++ "_" ++ v])]
+      | some (o, v, ao) => [emit o v ao]
       | none => []
-    | (v, fs) :: rest, _ :: rs, m :: ms, acc =>
+    | (v, fs) :: rest, r :: rs, m :: ms, acc =>
+      let isOut := S.outRanks.contains r
       match m, acc with
-      | .drive o, some (o', v') =>
-        if o = o' then go rest rs ms (some (o, v' ++ v))
-        else (v', [((tensors[o']?.map (·.name)).getD "?").toLower ++ "_" ++ v']) :: go rest rs ms (some (o, v))
-      | .drive o, none => go rest rs ms (some (o, v))
-      | .co, some (o', v') => (v', [((tensors[o']?.map (·.name)).getD "?").toLower ++ "_" ++ v']) :: (v, fs) :: go rest rs ms none
+      | .drive o, some (o', v', ao') =>
+        if o = o' then go rest rs ms (some (o, v' ++ v, ao' && isOut))
+        else emit o' v' ao' :: go rest rs ms (some (o, v, isOut))
+      | .drive o, none => go rest rs ms (some (o, v, isOut))
+      | .co, some (o', v', ao') => emit o' v' ao' :: (v, fs) :: go rest rs ms none
       | .co, none => (v, fs) :: go rest rs ms none
     | _, _, _, _ => []
   go plain S.loop modes none
